@@ -70,6 +70,25 @@ pub fn c_pop(_g: &mut Generator) -> Option<StackObjectRef> {
 pub fn c_emit_opcode(_g: &mut Generator, op: OpcodeKind) {
     check_emit(ref_index(op));
 }
+// every other stack-reading helper of Generator gets a contract over the same shadow, so that a collapse
+// routine that starts using one of them is not silently run against the (empty) real stack
+pub fn c_count_items_to_mark(_g: &Generator) -> Option<usize> {
+    unsafe { T.sh.top_mark().map(|p| T.sh.n - 1 - p) }
+}
+pub fn c_peek_at(_g: &Generator, depth: usize) -> Option<&StackObjectRef> {
+    unsafe {
+        match T.sh.at(depth) {
+            None => None,
+            Some(k) => Some(leak_cell(k)),
+        }
+    }
+}
+pub fn c_false_at(_g: &Generator, _depth: usize) -> bool {
+    false // the shadow stack holds only NONE objects and MARKs
+}
+pub fn c_false(_g: &Generator) -> bool {
+    false
+}
 
 fn tail_body(maxn: usize) {
     let p = any_proto();
@@ -127,6 +146,18 @@ macro_rules! tail_h {
         #[kani::stub(Generator::pop, c_pop)]
         #[kani::stub(Generator::emit_opcode, c_emit_opcode)]
         #[kani::stub(crate::stack::Stack::len, c_len)]
+        #[kani::stub(Generator::count_items_to_mark, c_count_items_to_mark)]
+        #[kani::stub(Generator::peek_at, c_peek_at)]
+        #[kani::stub(Generator::is_list_at, c_false_at)]
+        #[kani::stub(Generator::is_dict_at, c_false_at)]
+        #[kani::stub(Generator::is_tuple_at, c_false_at)]
+        #[kani::stub(Generator::is_callable_at, c_false_at)]
+        #[kani::stub(Generator::is_instance_at, c_false_at)]
+        #[kani::stub(Generator::is_string_at, c_false_at)]
+        #[kani::stub(Generator::is_list_at_mark, c_false)]
+        #[kani::stub(Generator::is_dict_at_mark, c_false)]
+        #[kani::stub(Generator::is_set_at_mark, c_false)]
+        #[kani::stub(Generator::is_callable_above_mark, c_false)]
         fn $name() {
             tail_body($maxn);
         }
